@@ -4,6 +4,8 @@ import ExponaxModel.Proofs.Symmetry
 import ExponaxModel.Proofs.SymmetryND
 import ExponaxModel.Proofs.SymmetryND2
 import ExponaxModel.Proofs.EquivarianceNDSteps
+import ExponaxModel.Proofs.AxisPermEmbedAxis
+import ExponaxModel.Proofs.AxisPermTermsMC
 /-
 C08 — steppers commute with the symmetries of the periodic box.
 Translation (1-D, one channel, every `N ≥ 1`, every state): forward and inverse shift theorem, equivariance of every
@@ -234,5 +236,292 @@ theorem C08_convection_translation_nd (c : Cfg ℂ) (hN : 0 < c.N) (C : ℕ) (sc
 
 
 example : (0 : ℕ) < 8 := by decide
+
+
+/-! ### axis permutations and 1-D embedding in EVERY dimension (library `Proofs/AxisPerm*.lean`): `permField D N σ u` is
+(P_σ u)(j) = u(j∘σ); `fullCoef` reads the coefficient of ANY integer wavenumber vector off the half layout (stored entry or
+conjugate of the partner).  The spectrum of a permuted real state is the relabelled spectrum (every state); isotropic
+single-channel terms commute with P_σ and multi-channel convection with the joint axis-and-channel permutation; ETDRK steps and
+rollouts of isotropic steppers commute with P_σ on real Nyquist-free states when N is odd or a dealiasing mask is active; the
+D-dimensional step of a 1-D state embedded along the last axis is the embedding of the 1-D step for every state -/
+
+open Exponax.AxisPerm Exponax.AliasND in
+theorem C08_dft_of_permuted_field :
+    ∀ (D N : ℕ),
+      0 < N →
+        ∀ (σ : Equiv.Perm (Fin D)) (u : Array ℂ) (k : Fin D → ℤ),
+          AliasND.dftV D N (permField D N σ u) k = AliasND.dftV D N u (k ∘ ⇑σ) :=
+  @Exponax.AxisPerm.dftV_permField
+
+open Exponax.AxisPerm Exponax.AliasND in
+theorem C08_spectrum_of_permuted_state :
+    ∀ (D N : ℕ),
+      0 < D →
+        0 < N →
+          ∀ (σ : Equiv.Perm (Fin D)) (u : Array ℂ),
+            AliasND.IsRealND D N u →
+              ∀ (κ : Fin D → ℤ),
+                fullCoef D N (Transform.rfftnM D N (permField D N σ u)) κ = fullCoef D N (Transform.rfftnM D N u) (κ ∘ ⇑σ) :=
+  @Exponax.AxisPerm.rfftn_permField_fullCoef
+
+open Exponax.AxisPerm Exponax.AliasND in
+theorem C08_spectrum_of_permuted_state_3d :
+    ∀ (N : ℕ),
+      0 < N →
+        ∀ (σ : Equiv.Perm (Fin 3)) (u : Array ℂ),
+          AliasND.IsRealND 3 N u →
+            ∀ (k : Fin 3 → ℤ),
+              fullCoef 3 N (Transform.rfftnM 3 N (permField 3 N σ u)) k =
+                fullCoef 3 N (Transform.rfftnM 3 N u) ![k (σ 0), k (σ 1), k (σ 2)] :=
+  @Exponax.AxisPerm.rfftn_permField_3d
+
+open Exponax.AxisPerm Exponax.AliasND in
+theorem C08_general_term_commutes_with_axis_permutation :
+    ∀ (c : Nonlin.Cfg ℂ),
+      PermCfg c →
+        ∀ (σ : Equiv.Perm (Fin c.D)) (C : ℕ) (s0 s1 s2 : ℂ),
+          s0.im = 0 →
+            s1.im = 0 →
+              s2.im = 0 →
+                ∀ (zeroFix : Bool) (uh uh' : Nonlin.MC ℂ),
+                  MCSpecPerm c σ id uh uh' →
+                    MCSpecPerm c σ id (Nonlin.general c C s0 s1 s2 zeroFix uh) (Nonlin.general c C s0 s1 s2 zeroFix uh') :=
+  @Exponax.AxisPerm.general_mcSpecPerm
+
+open Exponax.AxisPerm Exponax.AliasND in
+theorem C08_multichannel_convection_commutes_with_axis_and_channel_permutation :
+    ∀ (c : Nonlin.Cfg ℂ),
+      PermCfg c →
+        ∀ (σ : Equiv.Perm (Fin c.D)) (scale : ℂ),
+          scale.im = 0 →
+            ∀ (uh uh' : Nonlin.MC ℂ),
+              MCSpecPerm c σ (chanMap σ) uh uh' →
+                MCSpecPerm c σ (chanMap σ) (Nonlin.convection c c.D scale false false uh)
+                  (Nonlin.convection c c.D scale false false uh') :=
+  @Exponax.AxisPerm.convection_multi_noncons_mcSpecPerm
+
+open Exponax.AxisPerm Exponax.AliasND in
+theorem C08_term_axis_permutation_physical :
+    ∀ (c : Nonlin.Cfg ℂ),
+      0 < c.D →
+        0 < c.N →
+          ∀ (σ : Equiv.Perm (Fin c.D)) (τ : ℕ → ℕ) (C : ℕ),
+            (∀ (ch : ℕ), τ ch < C ↔ ch < C) →
+              ∀ (T : Nonlin.MC ℂ → Nonlin.MC ℂ),
+                TermPerm c σ τ T →
+                  ∀ (u u' : Nonlin.MC ℂ),
+                    (∀ (ch : ℕ), AliasND.IsRealND c.D c.N (Array.getD u ch #[])) →
+                      (∀ (ch : ℕ), NyqFreeS c.D c.N (Transform.rfftnM c.D c.N (Array.getD u ch #[]))) →
+                        (∀ (ch : ℕ), FieldPerm c.D c.N σ (Array.getD u ch #[]) (Array.getD u' (τ ch) #[])) →
+                          ∀ (ch : ℕ),
+                            Transform.irfftnM c.D c.N
+                                (Array.getD (T (Nonlin.tab2 C (Nonlin.modes c) (EquivND.specMC c.D c.N u'))) (τ ch) #[]) =
+                              permField c.D c.N σ
+                                (Transform.irfftnM c.D c.N
+                                  (Array.getD (T (Nonlin.tab2 C (Nonlin.modes c) (EquivND.specMC c.D c.N u))) ch #[])) :=
+  @Exponax.AxisPerm.term_physical_axisPerm
+
+open Exponax.AxisPerm Exponax.AliasND in
+theorem C08_step_commutes_with_axis_permutation :
+    ∀ (c : Nonlin.Cfg ℂ),
+      PermCfg c →
+        ∀ (σ : Equiv.Perm (Fin c.D)) (a : List ℂ),
+          (∀ x ∈ a, x.im = 0) →
+            ∀ (F Fh F1 F2 F3 F4 F5 F6 : ℂ → ℂ),
+              (∀ G ∈ [F, Fh, F1, F2, F3, F4, F5, F6], ∀ (z : ℂ), G ((starRingEnd ℂ) z) = (starRingEnd ℂ) (G z)) →
+                ∀ (C : ℕ) (s0 s1 s2 : ℂ),
+                  s0.im = 0 →
+                    s1.im = 0 →
+                      s2.im = 0 →
+                        ∀ (zeroFix : Bool) (n : ℕ) (u : Nonlin.MC ℂ),
+                          (∀ (ch : ℕ), AliasND.IsRealND c.D c.N (Array.getD u ch #[])) →
+                            (∀ (ch : ℕ), NyqFreeS c.D c.N (Transform.rfftnM c.D c.N (Array.getD u ch #[]))) →
+                              ∀ (ch : ℕ),
+                                Transform.irfftnM c.D c.N
+                                    (Transform.tab (Layout.numModes c.D c.N)
+                                      ((Gen.Etdrk.E4step (fun x h ↦ F (Nonlin.polySymbol c (generalLinear c.D a) h))
+                                            (fun x h ↦ Fh (Nonlin.polySymbol c (generalLinear c.D a) h))
+                                            (fun x h ↦ F1 (Nonlin.polySymbol c (generalLinear c.D a) h))
+                                            (fun x h ↦ F2 (Nonlin.polySymbol c (generalLinear c.D a) h))
+                                            (fun x h ↦ F3 (Nonlin.polySymbol c (generalLinear c.D a) h))
+                                            (fun x h ↦ F4 (Nonlin.polySymbol c (generalLinear c.D a) h))
+                                            (fun x h ↦ F5 (Nonlin.polySymbol c (generalLinear c.D a) h))
+                                            (fun x h ↦ F6 (Nonlin.polySymbol c (generalLinear c.D a) h))
+                                            (EquivND.liftTermND c C (Nonlin.general c C s0 s1 s2 zeroFix)))^[n]
+                                        (fun ch h ↦
+                                          (Transform.rfftnM c.D c.N ((Array.map (permField c.D c.N σ) u).getD ch #[])).getD
+                                            h 0)
+                                        ch)) =
+                                  permField c.D c.N σ
+                                    (Transform.irfftnM c.D c.N
+                                      (Transform.tab (Layout.numModes c.D c.N)
+                                        ((Gen.Etdrk.E4step (fun x h ↦ F (Nonlin.polySymbol c (generalLinear c.D a) h))
+                                              (fun x h ↦ Fh (Nonlin.polySymbol c (generalLinear c.D a) h))
+                                              (fun x h ↦ F1 (Nonlin.polySymbol c (generalLinear c.D a) h))
+                                              (fun x h ↦ F2 (Nonlin.polySymbol c (generalLinear c.D a) h))
+                                              (fun x h ↦ F3 (Nonlin.polySymbol c (generalLinear c.D a) h))
+                                              (fun x h ↦ F4 (Nonlin.polySymbol c (generalLinear c.D a) h))
+                                              (fun x h ↦ F5 (Nonlin.polySymbol c (generalLinear c.D a) h))
+                                              (fun x h ↦ F6 (Nonlin.polySymbol c (generalLinear c.D a) h))
+                                              (EquivND.liftTermND c C (Nonlin.general c C s0 s1 s2 zeroFix)))^[n]
+                                          (fun ch h ↦ (Transform.rfftnM c.D c.N (Array.getD u ch #[])).getD h 0) ch))) :=
+  @Exponax.AxisPerm.E4_axisPerm_general
+
+open Exponax.AxisPerm Exponax.AliasND in
+theorem C08_convection_step_commutes_with_axis_and_channel_permutation :
+    ∀ (c : Nonlin.Cfg ℂ),
+      PermCfg c →
+        ∀ (σ : Equiv.Perm (Fin c.D)) (scale : ℂ),
+          scale.im = 0 →
+            ∀ (conservative : Bool) {E Eh c1 c2 c3 c4 c5 c6 : ℕ → ℕ → ℂ},
+              IsoCoef c σ (chanMap σ) E E →
+                IsoCoef c σ (chanMap σ) Eh Eh →
+                  IsoCoef c σ (chanMap σ) c1 c1 →
+                    IsoCoef c σ (chanMap σ) c2 c2 →
+                      IsoCoef c σ (chanMap σ) c3 c3 →
+                        IsoCoef c σ (chanMap σ) c4 c4 →
+                          IsoCoef c σ (chanMap σ) c5 c5 →
+                            IsoCoef c σ (chanMap σ) c6 c6 →
+                              ∀ (n : ℕ) (u : Nonlin.MC ℂ),
+                                Array.size u ≤ c.D →
+                                  (∀ (ch : ℕ), AliasND.IsRealND c.D c.N (Array.getD u ch #[])) →
+                                    (∀ (ch : ℕ), NyqFreeS c.D c.N (Transform.rfftnM c.D c.N (Array.getD u ch #[]))) →
+                                      ∀ (i : Fin c.D),
+                                        EquivND.physCh c.D c.N
+                                            ((Gen.Etdrk.E4step E Eh c1 c2 c3 c4 c5 c6
+                                                  (EquivND.liftTermND c c.D
+                                                    (Nonlin.convection c c.D scale false conservative)))^[n]
+                                              (EquivND.specMC c.D c.N (permVecMC c σ u)))
+                                            ↑(σ i) =
+                                          permField c.D c.N σ
+                                            (EquivND.physCh c.D c.N
+                                              ((Gen.Etdrk.E4step E Eh c1 c2 c3 c4 c5 c6
+                                                    (EquivND.liftTermND c c.D
+                                                      (Nonlin.convection c c.D scale false conservative)))^[n]
+                                                (EquivND.specMC c.D c.N u))
+                                              ↑i) :=
+  @Exponax.AxisPerm.E4_axisPerm_convection_mc
+
+open Exponax.AxisPerm Exponax.AliasND in
+theorem C08_spectrum_of_embedded_state :
+    ∀ (E N : ℕ),
+      0 < N →
+        ∀ (w : Array ℂ),
+          ∀ h < Layout.numModes (E + 1) N,
+            (Transform.rfftnM (E + 1) N (embedAxis (E + 1) N E w)).getD h 0 =
+              if h < N / 2 + 1 then ↑(N ^ E) * (Transform.rfftnM 1 N w).getD h 0 else 0 :=
+  @Exponax.AxisPerm.rfftn_embedLast
+
+open Exponax.AxisPerm Exponax.AliasND in
+theorem C08_general_term_of_embedded_state :
+    ∀ (c : Nonlin.Cfg ℂ),
+      0 < c.D →
+        0 < c.N →
+          ∀ (C : ℕ) (s0 s1 s2 : ℂ) (zeroFix : Bool) (uh uh1 : Nonlin.MC ℂ),
+            MCEmbSpec c uh uh1 →
+              MCEmbSpec c (Nonlin.general c C s0 s1 s2 zeroFix uh) (Nonlin.general (cfg1 c) C s0 s1 s2 zeroFix uh1) :=
+  @Exponax.AxisPerm.general_embed
+
+open Exponax.AxisPerm Exponax.AliasND in
+theorem C08_step_of_embedded_state_last_axis :
+    ∀ (c : Nonlin.Cfg ℂ),
+      0 < c.D →
+        0 < c.N →
+          ∀ (a : List ℂ) (F Fh F1 F2 F3 F4 F5 F6 : ℂ → ℂ) (s0 s1 s2 : ℂ) (zeroFix : Bool) (n : ℕ) (w : Array ℂ),
+            Transform.irfftnM c.D c.N
+                (Transform.tab (Layout.numModes c.D c.N)
+                  ((Gen.Etdrk.E4step (fun x h ↦ F (Nonlin.polySymbol c (generalLinear c.D a) h))
+                        (fun x h ↦ Fh (Nonlin.polySymbol c (generalLinear c.D a) h))
+                        (fun x h ↦ F1 (Nonlin.polySymbol c (generalLinear c.D a) h))
+                        (fun x h ↦ F2 (Nonlin.polySymbol c (generalLinear c.D a) h))
+                        (fun x h ↦ F3 (Nonlin.polySymbol c (generalLinear c.D a) h))
+                        (fun x h ↦ F4 (Nonlin.polySymbol c (generalLinear c.D a) h))
+                        (fun x h ↦ F5 (Nonlin.polySymbol c (generalLinear c.D a) h))
+                        (fun x h ↦ F6 (Nonlin.polySymbol c (generalLinear c.D a) h))
+                        (EquivND.liftTermND c 1 (Nonlin.general c 1 s0 s1 s2 zeroFix)))^[n]
+                    (fun ch h ↦ (Transform.rfftnM c.D c.N (#[embedAxis c.D c.N (c.D - 1) w].getD ch #[])).getD h 0) 0)) =
+              embedAxis c.D c.N (c.D - 1)
+                (Transform.irfftnM 1 c.N
+                  (Transform.tab (Layout.numModes 1 c.N)
+                    ((Gen.Etdrk.E4step
+                          (fun x h ↦ F (Nonlin.polySymbol (cfg1 c) (generalLinear 1 (Symmetry.embedCoefs c.D a)) h))
+                          (fun x h ↦ Fh (Nonlin.polySymbol (cfg1 c) (generalLinear 1 (Symmetry.embedCoefs c.D a)) h))
+                          (fun x h ↦ F1 (Nonlin.polySymbol (cfg1 c) (generalLinear 1 (Symmetry.embedCoefs c.D a)) h))
+                          (fun x h ↦ F2 (Nonlin.polySymbol (cfg1 c) (generalLinear 1 (Symmetry.embedCoefs c.D a)) h))
+                          (fun x h ↦ F3 (Nonlin.polySymbol (cfg1 c) (generalLinear 1 (Symmetry.embedCoefs c.D a)) h))
+                          (fun x h ↦ F4 (Nonlin.polySymbol (cfg1 c) (generalLinear 1 (Symmetry.embedCoefs c.D a)) h))
+                          (fun x h ↦ F5 (Nonlin.polySymbol (cfg1 c) (generalLinear 1 (Symmetry.embedCoefs c.D a)) h))
+                          (fun x h ↦ F6 (Nonlin.polySymbol (cfg1 c) (generalLinear 1 (Symmetry.embedCoefs c.D a)) h))
+                          (EquivND.liftTermND (cfg1 c) 1 (Nonlin.general (cfg1 c) 1 s0 s1 s2 zeroFix)))^[n]
+                      (fun ch h ↦ (Transform.rfftnM 1 c.N (#[w].getD ch #[])).getD h 0) 0))) :=
+  @Exponax.AxisPerm.E4_general_embed
+
+open Exponax.AxisPerm Exponax.AliasND in
+theorem C08_step_of_embedded_state_any_axis :
+    ∀ (c : Nonlin.Cfg ℂ),
+      PermCfg c →
+        ∀ (a : Fin c.D) (al : List ℂ),
+          (∀ x ∈ al, x.im = 0) →
+            ∀ (F Fh F1 F2 F3 F4 F5 F6 : ℂ → ℂ),
+              (∀ G ∈ [F, Fh, F1, F2, F3, F4, F5, F6], ∀ (z : ℂ), G ((starRingEnd ℂ) z) = (starRingEnd ℂ) (G z)) →
+                ∀ (s0 s1 s2 : ℂ),
+                  s0.im = 0 →
+                    s1.im = 0 →
+                      s2.im = 0 →
+                        ∀ (zeroFix : Bool) (n : ℕ) (w : Array ℂ),
+                          (∀ i < c.N, (w.getD i 0).im = 0) →
+                            NyqFreeS 1 c.N (Transform.rfftnM 1 c.N w) →
+                              EquivND.physCh c.D c.N
+                                  ((Gen.Etdrk.E4step (fun x h ↦ F (Nonlin.polySymbol c (generalLinear c.D al) h))
+                                        (fun x h ↦ Fh (Nonlin.polySymbol c (generalLinear c.D al) h))
+                                        (fun x h ↦ F1 (Nonlin.polySymbol c (generalLinear c.D al) h))
+                                        (fun x h ↦ F2 (Nonlin.polySymbol c (generalLinear c.D al) h))
+                                        (fun x h ↦ F3 (Nonlin.polySymbol c (generalLinear c.D al) h))
+                                        (fun x h ↦ F4 (Nonlin.polySymbol c (generalLinear c.D al) h))
+                                        (fun x h ↦ F5 (Nonlin.polySymbol c (generalLinear c.D al) h))
+                                        (fun x h ↦ F6 (Nonlin.polySymbol c (generalLinear c.D al) h))
+                                        (EquivND.liftTermND c 1 (Nonlin.general c 1 s0 s1 s2 zeroFix)))^[n]
+                                    (EquivND.specMC c.D c.N #[embedAxis c.D c.N (↑a) w]))
+                                  0 =
+                                embedAxis c.D c.N (↑a)
+                                  (EquivND.physCh 1 c.N
+                                    ((Gen.Etdrk.E4step
+                                          (fun x h ↦
+                                            F
+                                              (Nonlin.polySymbol (cfg1 c)
+                                                (generalLinear (cfg1 c).D (Symmetry.embedCoefs c.D al)) h))
+                                          (fun x h ↦
+                                            Fh
+                                              (Nonlin.polySymbol (cfg1 c)
+                                                (generalLinear (cfg1 c).D (Symmetry.embedCoefs c.D al)) h))
+                                          (fun x h ↦
+                                            F1
+                                              (Nonlin.polySymbol (cfg1 c)
+                                                (generalLinear (cfg1 c).D (Symmetry.embedCoefs c.D al)) h))
+                                          (fun x h ↦
+                                            F2
+                                              (Nonlin.polySymbol (cfg1 c)
+                                                (generalLinear (cfg1 c).D (Symmetry.embedCoefs c.D al)) h))
+                                          (fun x h ↦
+                                            F3
+                                              (Nonlin.polySymbol (cfg1 c)
+                                                (generalLinear (cfg1 c).D (Symmetry.embedCoefs c.D al)) h))
+                                          (fun x h ↦
+                                            F4
+                                              (Nonlin.polySymbol (cfg1 c)
+                                                (generalLinear (cfg1 c).D (Symmetry.embedCoefs c.D al)) h))
+                                          (fun x h ↦
+                                            F5
+                                              (Nonlin.polySymbol (cfg1 c)
+                                                (generalLinear (cfg1 c).D (Symmetry.embedCoefs c.D al)) h))
+                                          (fun x h ↦
+                                            F6
+                                              (Nonlin.polySymbol (cfg1 c)
+                                                (generalLinear (cfg1 c).D (Symmetry.embedCoefs c.D al)) h))
+                                          (EquivND.liftTermND (cfg1 c) 1 (Nonlin.general (cfg1 c) 1 s0 s1 s2 zeroFix)))^[n]
+                                      (EquivND.specMC 1 c.N #[w]))
+                                    0) :=
+  @Exponax.AxisPerm.E4_general_embedAxis
+
 
 end Exponax
